@@ -258,6 +258,7 @@ def main(argv=None):
     except ValueError:
         seed = 1
     t0 = time.time()
+    os.environ["PBT_TIER"] = args.tier      # before the check module is imported: modules may size their generators by tier
 
     try:
         mod = _load_module(prop)
